@@ -238,6 +238,20 @@ func valuePool() []Val {
 		vArr(), vArr(vInt(1), vInt(2), vInt(3)), vArr(vStr("a"), vNull(), vDouble(2)), vArr(vArr(vInt(1)), vArr()), vArr(vInt(1), vStr("x")), vArr(vLong(5), vBool(true)),
 		vObj(0), vObj(1),
 	}
+	// round 4: texts that look like dates cut at various lengths, zero-padded and signed integer texts, instants just
+	// below a whole second, a big base with small negative exponents, and a long list with a nested list and a NaN
+	long := []Val{}
+	for i := 0; i < 17; i++ {
+		long = append(long, vInt(i))
+	}
+	long = append(long, vArr(vInt(1)), vStr("x"), vDouble(math.NaN()))
+	p = append(p,
+		vStr("2021-03-04T10:30"), vStr("2021-03-04T10:30:45"), vStr("2021-03-04T"), vStr("2021-03-04"), vStr("2021-03-04T10:30:45.5+02:00"),
+		vStr("000009007199254740993"), vStr("+12"), vStr("00000000000000000000000042"), vStr("-000000000000000000009007199254740993"),
+		vTime(time.Date(2021, 3, 4, 10, 30, 7, 999999999, time.UTC)), vTime(time.Unix(-1, 999999999).UTC()), vTime(time.Date(2021, 3, 4, 10, 30, 7, 999999500, time.UTC)), vTime(time.Date(1960, 3, 4, 10, 30, 7, 500000000, time.UTC)),
+		vLong(1000000000000), vLong(-10000000000), vInt(-31), vInt(-26), vInt(-17),
+		vArr(long...),
+	)
 	return p
 }
 
